@@ -109,11 +109,20 @@ pub fn cases<T: KS + Send + Sync>(out: &mut Out, rng0: &mut Rng, tier: &Tier, wh
         // table before pruning, a shard of a partitioned table): a third of the thresholded C01 tables are left unpruned.
         // C02 asks for extensions that reference present k-mers only.
         let loose = which == "C01" && min_obs > 1 && rng.chance(1, 3);
-        let tbl = table_of_opt::<T>(&reads, stranded, min_obs, &colours, !loose);
+        let mut tbl = table_of_opt::<T>(&reads, stranded, min_obs, &colours, !loose);
+        // ... and one C01 table in four is a SHARD: a random third of the entries is deleted afterwards, extensions
+        // untouched, so that many k-mers keep a sole extension towards an absent k-mer (what compress_kmers sees for one
+        // shard of a partitioned table)
+        let shard = which == "C01" && rng.chance(1, 4);
+        if shard {
+            let keep: Vec<bool> = tbl.iter().map(|_| !rng.chance(1, 3)).collect();
+            let mut it = keep.iter();
+            tbl.retain(|_| *it.next().unwrap());
+        }
         if tbl.is_empty() {
             continue;
         }
-        out.nt = is_delicate(&reads, k) || loose;
+        out.nt = is_delicate(&reads, k) || loose || shard;
         let spec = PaySpec { mode };
         let hash = boom_of(&tbl);
         // the order the table is iterated in (= ids used by the compressor)
@@ -189,7 +198,7 @@ pub fn cases<T: KS + Send + Sync>(out: &mut Out, rng0: &mut Rng, tier: &Tier, wh
             out.case("chk.total", l(vec![nu(k), st.clone(), n(mode), l(order.clone())]), b(g2v.is_some()));
         }
         // entry point 3: k-mers without extensions (only meaningful on unpruned, threshold-1 tables)
-        if min_obs == 1 {
+        if min_obs == 1 && !shard {
             // the k-mers are handed over in an arbitrary order (order of first appearance, a hash set ...): the function
             // has to keep each k-mer with ITS payload whatever the input order; two times out of three it is shuffled
             let mut plain: Vec<(T, Pay)> = tbl.iter().map(|x| (x.0, (x.1).1.clone())).collect();
